@@ -133,9 +133,34 @@ def recursion_requests():
     selfdep = ["local a = a; a", "{a: self.a}.a", "local a = [a[0]]; a[0]", "local a = {b: a.b}; a.b",
                "local f(x) = x, a = f(a); a", "{a: self.b, b: self.a}.a", "{assert self.a > 0, a: self.b, b: self.a}.a",
                "local a = b, b = c, c = a; a", "{a+: self.a}.a", "local o = {x: o.y, y: o.x}; o"]
+    # a value that depends on itself THROUGH a lazily evaluating library construct: every per-element /
+    # per-field cache must report the cycle, not crash
+    selfdep += [
+        "local a = std.makeArray(3, function(i) a[(i + 1) % 3] + 1); a",
+        "local a = std.makeArray(2, function(i) a[i]); a[1]",
+        "{ xs: std.map(function(x) x + $.xs[0], [1, 2, 3]) }.xs[2]",
+        "local a = std.map(function(x) a[x], [0, 1]); a[1]",
+        "local a = std.mapWithIndex(function(i, x) a[i] + x, [1, 2]); a[0]",
+        "local a = std.filterMap(function(x) true, function(x) a[0], [1]); a[0]",
+        "local a = [a[1], a[0]]; a[0]",
+        "local a = [x for x in [a[0]]]; a[0]",
+        "local a = std.reverse([2, a[0] + 1]); a[0]",
+        "local a = ([a[0], 1] + [2])[0:2]; a[0]",
+        "local a = std.repeat([a[0]], 2); a[1]",
+        "local o = {a: std.get(o, 'a', 1)}; o.a",
+        "local o = std.mapWithKey(function(k, v) o[k], {a: 1}); o.a",
+        "local o = std.mergePatch({a: 1}, {b: {c: o.b.c}}); o.b.c",
+        "local o = {a: 1} + {a+: o.a}; o.a",
+        "local v = std.objectValues({a: v[0]}); v[0]",
+        "local kv = std.objectKeysValues({a: kv[0].value}); kv[0].value",
+        "local f(x) = x, a = std.foldl(function(acc, e) acc + a, [1], 0); a",
+        "local s = std.sort([1, 2], function(k) s[0]); s",
+        "local j = std.join([j[0]], [[1], [2]]); j[1]",
+        "std.makeArray(2, function(i) std.makeArray(2, function(j) error 'x'))[0][0] + (local a = a; a)",
+    ]
     for s in selfdep:
         reqs.append({"code": s})
-        expect.append(("InfiniteRecursionDetected", 0))
+        expect.append(("selfdep", 0))
     return reqs, expect
 
 
@@ -227,6 +252,16 @@ def check(run, terrs):
     for rq, o, (exp, n) in zip(reqs, outs, expect):
         run.note_case("rec" + json.dumps(rq, sort_keys=True), True)
         c = class_of(o)
+        if exp == "selfdep":
+            # a Jsonnet error (infinite recursion, or the stack limit for cycles through library calls) - never
+            # a value, never a crash
+            good = c == "err"
+            run.count(f"selfdep:{o.get('err', c)}")
+            if not good:
+                failures.append({"case": {"request": rq}, "summary": f"C04 self-dependent value is not reported as an "
+                                 f"error ({c}): {rq['code'][:120]}", "expected": "InfiniteRecursionDetected / StackOverflow error",
+                                 "got": o})
+            continue
         good = (c in ("ok", "err")) and (
             (exp == "ok" and c == "ok") or (exp == "either" and (c == "ok" or o.get("err") == "StackOverflow")) or
             (exp not in ("ok", "either") and o.get("err") == exp))
